@@ -9,6 +9,7 @@ firmware (listed in C14's evidence):
   * a coordinator that forms a network is its own trust centre: trustCenterLongAddress = own EUI64;
   * the trust-centre link key record reports partner FF:FF:FF:FF:FF:FF:FF:FF;
   * clearKeyTable empties the link-key table; tokenFactoryReset forgets network, children, counters;
+  * leaveNetwork forgets the network, its current keys and its child table, but neither frame counters nor link keys;
   * a reset keeps the stored network but the stack is down until networkInit."""
 from __future__ import annotations
 
@@ -190,6 +191,7 @@ class NetSim(simncp.SimNcp):
         self.stack_up = False
         self.network = None
         self.current_sec = None
+        self.children = {}  # leaving erases the network's neighbour/child tokens (frame counters and link keys stay)
         self.status_event("NETWORK_DOWN")
         return {"status": "OK"}
 
